@@ -1,6 +1,7 @@
 import VarmqVerif.Spec.Props2
 import Driver.Parse
 import Driver.Replay
+import Driver.Diff
 /-!
   Correspondence / oracle driver (DESIGN.md §3.3). Reads a stream of traces
     BEGIN idx seed / P json / ...lines... / S schedule / END idx k=v...
@@ -73,5 +74,8 @@ partial def loop (h : IO.FS.Stream) (sel : List String) (c : Cur) : IO Unit := d
     | none => loop h sel { c with nlines := c.nlines + 1 }
 
 def main (args : List String) : IO Unit := do
-  let h ← IO.getStdin
-  loop h args {}
+  if args.any (·.startsWith "diff:") then
+    runDiff
+  else
+    let h ← IO.getStdin
+    loop h args {}
